@@ -3,6 +3,7 @@
    ("safe") whenever the model panics or runs out of fuel, "-" otherwise; column 3 the
    known-defect key of the input class. *)
 From PV Require Import Base.Text Base.Slice Model.NDPOptions Model.MiscHopByHop.
+From PV Require Import Model.HandlersLoop Model.HandlersDnsMsg.
 Open Scope string_scope.
 Open Scope N_scope.
 
@@ -30,7 +31,80 @@ Definition fuel_of (b : slice) : nat := (cap b + 8)%nat.
 
 Definition lbl_any : bytes -> bool := fun _ => true.
 
+(* structured DNS message: start resp skipq an ns ar recs; recs = "-" or
+   ';'-separated "hdr,type,body,fits,rawskip,datahex" *)
+Definition rec_of_tok (s : string) : option rrec :=
+  match Text.split ","%char s with
+  | [h; t; b; f; r; d] =>
+      match bool_of_tok h, N_of_dec t, bool_of_tok b, bool_of_tok f, bool_of_tok r, bytes_of_tok d with
+      | Some h', Some t', Some b', Some f', Some r', Some d' => Some (mkRec h' t' b' f' r' d')
+      | _, _, _, _, _, _ => None
+      end
+  | _ => None
+  end.
+
+Fixpoint recs_of_toks (l : list string) : option (list rrec) :=
+  match l with
+  | [] => Some []
+  | x :: r => match rec_of_tok x, recs_of_toks r with
+              | Some a, Some b => Some (a :: b)
+              | _, _ => None
+              end
+  end.
+
+Definition recs_of_tok (s : string) : option (list rrec) :=
+  if String.eqb s "-" then Some [] else recs_of_toks (Text.split ";"%char s).
+
+Definition msg_of_toks (st rs sq an ns ar recs : string) : option dmsg :=
+  match bool_of_tok st, bool_of_tok rs, bool_of_tok sq, nat_of_dec an, nat_of_dec ns, nat_of_dec ar, recs_of_tok recs with
+  | Some a, Some b, Some c, Some d, Some e, Some f, Some g => Some (mkMsg a b c d e f g)
+  | _, _, _, _, _, _, _ => None
+  end.
+
+Definition dns_fuel (m : dmsg) : nat := (2 * List.length (m_recs m) + 16)%nat.
+
+Definition mdns_key (m : dmsg) : string :=
+  match known_C08_mdns m with
+  | MNone => "-"
+  | MOutsideAnswers => "mdns-skipanswer-outside-answer-section"
+  | MSkipFailed => "mdns-skipanswer-error-ignored"
+  end.
+
+Definition nbns_key (r : res unit) (valid : bool) (m : dmsg) : string :=
+  match r, known_C08_nbns valid m with
+  | Fuel, NNotSkipped => "nbns-answer-not-skipped"
+  | Panic, NArray => "nbns-node-name-array-bound"
+  | Panic, NNotSkipped =>
+      if existsb (fun r => (r_type r =? 33) && known_C08_nbns_array (of_bytes (r_data r))) (m_recs m)
+      then "nbns-node-name-array-bound" else "-"
+  | _, _ => "-"
+  end.
+
+Definition dispatch_dns (kind : string) (args : list string) : string :=
+  if String.eqb kind "mdns" then
+    match args with
+    | [_; st; rs; sq; an; ns; ar; recs] =>
+        match msg_of_toks st rs sq an ns ar recs with
+        | Some m => verdict (process_mdns (dns_fuel m) m) (mdns_key m)
+        | None => BADARGS
+        end
+    | _ => BADARGS
+    end
+  else if String.eqb kind "nbns" then
+    match args with
+    | [_; v; st; rs; sq; an; ns; ar; recs] =>
+        match bool_of_tok v, msg_of_toks st rs sq an ns ar recs with
+        | Some valid, Some m =>
+            let r := process_nbns (dns_fuel m) valid m in
+            verdict r (nbns_key r valid m)
+        | _, _ => BADARGS
+        end
+    | _ => BADARGS
+    end
+  else BADARGS.
+
 Definition dispatch (kind : string) (args : list string) : string :=
+  if String.eqb kind "mdns" || String.eqb kind "nbns" then dispatch_dns kind args else
   match args with
   | [h; sp] =>
       match bytes_of_tok h, bytes_of_tok sp with
